@@ -14,6 +14,9 @@ pub enum Kind {
     Panic,
     StopSys(i32),
     StopSelf,
+    /// blocks its arbiter's thread and executes closures the coordinator hands it (sends "from a task running on the
+    /// arbiter itself", through Arbiter::current()) until it is released; in the model: a task that completes
+    Gate,
 }
 
 #[derive(Clone, Debug)]
@@ -36,6 +39,7 @@ fn parse_kind(s: &str) -> Kind {
         b'x' => Kind::Panic,
         b'e' => Kind::StopSys(s[1..].parse().unwrap()),
         b's' => Kind::StopSelf,
+        b'g' => Kind::Gate,
         _ => panic!("kind {s}"),
     }
 }
@@ -117,7 +121,7 @@ fn record(sh: &Shared, k: usize, tid: usize) {
 /// the body of a spawned task, after it has logged its start
 fn effect(kind: Kind, busy_us: u64) {
     match kind {
-        Kind::Done | Kind::Pend => {}
+        Kind::Done | Kind::Pend | Kind::Gate => {}
         Kind::Busy => thread::sleep(Duration::from_micros(busy_us)),
         Kind::Panic => panic!("task panics (scripted)"),
         Kind::StopSys(c) => System::current().stop_with_code(c),
@@ -255,6 +259,25 @@ struct Slot {
     owner: Option<Arbiter>,
     handle: ArbiterHandle,
     joined: bool,
+    /// sender side of the active gate task's job channel (dropping it releases the gate)
+    gate: Option<mpsc::Sender<AgentMsg>>,
+    /// tid of the active gate task
+    gate_tid: usize,
+}
+
+/// run `job` inside the gate task of this slot (on the arbiter's own thread, which the gate keeps blocked);
+/// false if there is no gate or it does not answer
+fn on_gate(slot: &Slot, job: Job) -> bool {
+    match &slot.gate {
+        None => false,
+        Some(tx) => {
+            let (atx, arx) = mpsc::channel();
+            if tx.send((job, atx)).is_err() {
+                return false;
+            }
+            arx.recv_timeout(watchdog()).is_ok()
+        }
+    }
 }
 
 fn pause(rng: &mut Rng, profile: u64) {
@@ -301,8 +324,57 @@ fn run_case(userun: bool, seed: u64, ops: &[Op]) -> String {
                 let c2 = cell.clone();
                 let made = via == 's' && side.on_sys_thread(Box::new(move || *c2.lock().unwrap() = Some(Arbiter::new())));
                 let arb = if made { cell.lock().unwrap().take().unwrap() } else { Arbiter::new() };
-                slots.push(Slot { handle: arb.handle(), owner: Some(arb), joined: false });
+                slots.push(Slot { handle: arb.handle(), owner: Some(arb), joined: false, gate: None, gate_tid: 0 });
                 'u'
+            }
+            Op::Spawn { k, kind: Kind::Gate, via, .. } if k < slots.len() => {
+                // the gate task: logs its start, then serves the coordinator's closures on the arbiter thread
+                let (gtx, grx) = mpsc::channel::<AgentMsg>();
+                let sh2 = sh.clone();
+                let fut = async move {
+                    record(&sh2, k, pos);
+                    while let Ok((job, ack)) = grx.recv() {
+                        job();
+                        let _ = ack.send(());
+                    }
+                };
+                let slot = &mut slots[k];
+                let ok = match (via, &slot.owner) {
+                    ('o', Some(a)) => a.spawn(fut),
+                    _ => slot.handle.spawn(fut),
+                };
+                slot.gate = Some(gtx); // replaces (= releases) an earlier gate
+                slot.gate_tid = pos;
+                if ok { 't' } else { 'f' }
+            }
+            Op::Spawn { k, kind, via: 'g', is_fn } if k < slots.len() && slots[k].gate.is_some() => {
+                // sent by the gate task itself, through Arbiter::current()
+                let sh2 = sh.clone();
+                let out = Arc::new(Mutex::new(None));
+                let o2 = out.clone();
+                let ran = on_gate(&slots[k], Box::new(move || {
+                    let h = Arbiter::current();
+                    *o2.lock().unwrap() = Some(send_via_handle(&h, sh2, k, pos, kind, is_fn, busy_us));
+                }));
+                let v = *out.lock().unwrap();
+                match (ran, v) {
+                    (true, Some(true)) => 't',
+                    (true, Some(false)) => 'f',
+                    _ => { hung(); 'h' }
+                }
+            }
+            Op::Stop { k, via: 'g' } if k < slots.len() && slots[k].gate.is_some() => {
+                let out = Arc::new(Mutex::new(None));
+                let o2 = out.clone();
+                let ran = on_gate(&slots[k], Box::new(move || {
+                    *o2.lock().unwrap() = Some(Arbiter::current().stop());
+                }));
+                let v = *out.lock().unwrap();
+                match (ran, v) {
+                    (true, Some(true)) => 't',
+                    (true, Some(false)) => 'f',
+                    _ => { hung(); 'h' }
+                }
             }
             Op::Spawn { k, kind, via, is_fn } => match slots.get(k) {
                 None => 'f',
@@ -354,6 +426,9 @@ fn run_case(userun: bool, seed: u64, ops: &[Op]) -> String {
                 'u'
             }
             Op::WaitRun => {
+                for sl in slots.iter_mut() {
+                    sl.gate = None;
+                }
                 if ret.is_none() {
                     ret = side.ret_rx.recv_timeout(watchdog()).ok();
                 }
@@ -363,6 +438,7 @@ fn run_case(userun: bool, seed: u64, ops: &[Op]) -> String {
                 None => 'j',
                 Some(slot) if slot.joined => 'j',
                 Some(slot) => {
+                    slot.gate = None; // release the gate task, if any
                     let arb = slot.owner.take().expect("script joins an arbiter it has dropped");
                     let (tx, rx) = mpsc::channel();
                     thread::spawn(move || {
@@ -388,6 +464,12 @@ fn run_case(userun: bool, seed: u64, ops: &[Op]) -> String {
                 'u'
             }
             Op::Await { k, tid } => {
+                // waiting for another task of a gated arbiter: the gate task ends first (its thread is blocked until then)
+                if let Some(sl) = slots.get_mut(k) {
+                    if sl.gate.is_some() && sl.gate_tid != tid {
+                        sl.gate = None;
+                    }
+                }
                 let g = sh.log.lock().unwrap();
                 let (_g, to) = sh.cv.wait_timeout_while(g, watchdog(), |l| !l.iter().any(|e| e.k == k && e.tid == tid)).unwrap();
                 if to.timed_out() {
@@ -413,6 +495,7 @@ fn run_case(userun: bool, seed: u64, ops: &[Op]) -> String {
         let _ = side.ret_rx.recv_timeout(Duration::from_millis(2000));
     }
     for slot in slots.iter_mut() {
+        slot.gate = None;
         slot.handle.stop();
         if let Some(arb) = slot.owner.take() {
             let (tx, rx) = mpsc::channel();
